@@ -142,6 +142,8 @@ type tkey struct {
 
 // TB is a term builder with a hash-consing table. One per executor (not shared between goroutines).
 type TB struct {
+	known  map[*Term][2]uint64 // path-scoped unsigned ranges learnt from decided conditions
+	rmemo  map[*Term][2]uint64 // path-scoped memo of structural ranges
 	tab    map[tkey]*Term
 	nextID int32
 	tTrue  *Term
@@ -408,7 +410,7 @@ func (b *TB) Eq(x, y *Term) *Term {
 
 // urange: cheap unsigned interval of a BV term (<=64 bits).
 func (b *TB) urange(t *Term) (lo, hi uint64, ok bool) {
-	return b.urangeD(t, 6)
+	return b.urangeD(t, 80)
 }
 
 func (b *TB) urangeD(t *Term, d int) (lo, hi uint64, ok bool) {
@@ -418,6 +420,40 @@ func (b *TB) urangeD(t *Term, d int) (lo, hi uint64, ok bool) {
 	if t.op == OConst {
 		return t.u, t.u, true
 	}
+	if b.rmemo != nil && t.op != OVar {
+		if r, has := b.rmemo[t]; has {
+			return r[0], r[1], true
+		}
+		l, h, ok := b.urangeS(t, d)
+		if ok && d > 40 {
+			b.rmemo[t] = [2]uint64{l, h}
+		}
+		if kr, has := b.known[t]; has {
+			if kr[0] > l {
+				l = kr[0]
+			}
+			if kr[1] < h {
+				h = kr[1]
+			}
+		}
+		return l, h, ok
+	}
+	if b.known != nil {
+		if r, has := b.known[t]; has {
+			l2, h2, _ := b.urangeS(t, d)
+			if l2 > r[0] {
+				r[0] = l2
+			}
+			if h2 < r[1] {
+				r[1] = h2
+			}
+			return r[0], r[1], true
+		}
+	}
+	return b.urangeS(t, d)
+}
+
+func (b *TB) urangeS(t *Term, d int) (lo, hi uint64, ok bool) {
 	if d == 0 {
 		return 0, mask(t.sort.W), true
 	}
@@ -473,12 +509,156 @@ func (b *TB) urangeD(t *Term, d int) (lo, hi uint64, ok bool) {
 		if c == 0 && hs <= mask(t.sort.W) {
 			return l1 + l2, hs, true
 		}
+		// the whole interval wraps around (e.g. byte - '0' written as byte + 0xd0)
+		if t.sort.W < 64 {
+			m := mask(t.sort.W)
+			if l1+l2 > m && h1+h2 <= 2*m+1 {
+				return l1 + l2 - m - 1, h1 + h2 - m - 1, true
+			}
+		}
 	case OURem:
 		if t.a1.op == OConst && t.a1.u > 0 {
 			return 0, t.a1.u - 1, true
 		}
+	case OMul:
+		l1, h1, _ := b.urangeD(t.a0, d-1)
+		l2, h2, _ := b.urangeD(t.a1, d-1)
+		hh, hl := bits.Mul64(h1, h2)
+		if hh == 0 && hl <= mask(t.sort.W) {
+			return l1 * l2, hl, true
+		}
+	case OSub:
+		// x - c with x >= c
+		if t.a1.op == OConst {
+			l1, h1, _ := b.urangeD(t.a0, d-1)
+			if l1 >= t.a1.u {
+				return l1 - t.a1.u, h1 - t.a1.u, true
+			}
+		}
+	case OExtract:
+		if t.u&0xffff == 0 {
+			l1, h1, _ := b.urangeD(t.a0, d-1)
+			if h1 <= mask(t.sort.W) {
+				return l1, h1, true
+			}
+		}
 	}
 	return 0, mask(t.sort.W), true
+}
+
+// Learn records what a decided Bool condition says about unsigned ranges of its operands.
+func (b *TB) Learn(c *Term, truth bool) {
+	if b.known == nil {
+		return
+	}
+	switch c.op {
+	case ONot:
+		b.Learn(c.a0, !truth)
+	case OAnd:
+		if truth {
+			b.Learn(c.a0, true)
+			b.Learn(c.a1, true)
+		}
+	case OOr:
+		if !truth {
+			b.Learn(c.a0, false)
+			b.Learn(c.a1, false)
+		}
+	case OEq:
+		if truth && c.a0.sort.K == KBV && c.a0.sort.W <= 64 {
+			if c.a1.op == OConst {
+				b.narrow(c.a0, c.a1.u, c.a1.u)
+			} else if c.a0.op == OConst {
+				b.narrow(c.a1, c.a0.u, c.a0.u)
+			}
+		}
+	case OUlt, OUle:
+		x, y := c.a0, c.a1
+		if x.sort.W > 64 {
+			return
+		}
+		strict := c.op == OUlt
+		if !truth {
+			// not (x < y)  ==  y <= x ; not (x <= y) == y < x
+			x, y = y, x
+			strict = !strict
+		}
+		// now: x < y (strict) or x <= y
+		if y.op == OConst {
+			h := y.u
+			if strict {
+				if h == 0 {
+					return
+				}
+				h--
+			}
+			b.narrow(x, 0, h)
+		} else if x.op == OConst {
+			l := x.u
+			if strict {
+				if l == mask(x.sort.W) {
+					return
+				}
+				l++
+			}
+			b.narrow(y, l, mask(y.sort.W))
+		}
+	case OSlt, OSle:
+		// only the non-negative fragment: 0 <= c  and  x <= c with c >= 0 and x known non-negative
+		x, y := c.a0, c.a1
+		if x.sort.W > 64 {
+			return
+		}
+		strict := c.op == OSlt
+		if !truth {
+			x, y = y, x
+			strict = !strict
+		}
+		half := uint64(1) << uint(x.sort.W-1)
+		if x.op == OConst && x.u < half {
+			// c <(=) y, c >= 0  => y in [c(+1), half-1]
+			l := x.u
+			if strict {
+				l++
+			}
+			b.narrow(y, l, half-1)
+		} else if y.op == OConst && y.u < half {
+			if _, hx, _ := b.urange(x); hx < half {
+				h := y.u
+				if strict {
+					if h == 0 {
+						return
+					}
+					h--
+				}
+				b.narrow(x, 0, h)
+			}
+		}
+	}
+}
+
+func (b *TB) narrow(t *Term, lo, hi uint64) {
+	if t.op == OConst {
+		return
+	}
+	cur, has := b.known[t]
+	if !has {
+		cur = [2]uint64{0, mask(t.sort.W)}
+	}
+	if lo > cur[0] {
+		cur[0] = lo
+	}
+	if hi < cur[1] {
+		cur[1] = hi
+	}
+	if cur[0] > cur[1] {
+		return
+	}
+	b.known[t] = cur
+	// facts travel through zero extension
+	if t.op == OZext && hi <= mask(t.a0.sort.W) {
+		b.narrow(t.a0, lo, hi)
+	}
 }
 
 func (b *TB) bin(op Op, x, y *Term) *Term {
@@ -701,6 +881,16 @@ func (b *TB) cmp(op Op, x, y *Term) *Term {
 	}
 	if x == y {
 		return b.Bool(op == OUle || op == OSle)
+	}
+	// x + y < x is impossible without overflow
+	if (op == OUlt || op == OUle) && x.op == OAdd && (x.a0 == y || x.a1 == y) && x.sort.W <= 64 {
+		_, ha, _ := b.urange(x.a0)
+		_, hb, _ := b.urange(x.a1)
+		if sum, carry := bits.Add64(ha, hb, 0); carry == 0 && sum <= mask(x.sort.W) {
+			if op == OUlt {
+				return b.tFalse
+			}
+		}
 	}
 	// interval reasoning
 	l1, h1, ok1 := b.urange(x)
